@@ -181,13 +181,19 @@ def collectFieldsUntyped : Nat → List Sel → List Frag → Vars → List Stri
   | fuel + 1, sels, frags, vars, seen =>
     loopM (collectStep (fun ss sn => collectFieldsUntyped fuel ss frags vars sn) frags vars) ([], seen) sels
 
-/-! ### `selected_fields` (pattern = None) — used by the UNCHANGED rule -/
+/-! ### `selected_fields`
+
+  `selectedFieldsOrig` — the code before proposed_fixes/C19-Q1sf.patch (descends into `fields[0]`
+  only; this is what the UNCHANGED depth rule measured through);
+  `selectedPaths` / `selectedFields` — after it (`_selected_paths` descends into the merged
+  sub-selections of a response-key group). `pat` is the compiled `pattern` as a predicate on the
+  path (`fun _ => true` for `pattern=None`). -/
 
 /-- `(not maxdepth) or len(_path) < (maxdepth - 1)`; `maxdepth = 0` also stands for `None`. -/
 def descend (maxdepth : Nat) (pathLen : Nat) : Bool :=
   maxdepth == 0 || decide (pathLen + 1 < maxdepth)
 
-def selectedLoop (rec : List Sel → List String → Except Err (List (List String)))
+def selectedLoopOrig (rec : List Sel → List String → Except Err (List (List String)))
     (maxdepth : Nat) (path : List String) : List (List String) → Grouped → Except Err (List (List String))
   | acc, [] => .ok acc
   | acc, (_, fields) :: rest =>
@@ -199,12 +205,12 @@ def selectedLoop (rec : List Sel → List String → Except Err (List (List Stri
       if descend maxdepth path.length then
         match rec child.sub childPath with
         | .error e => .error e
-        | .ok more => selectedLoop rec maxdepth path (acc ++ more) rest
-      else selectedLoop rec maxdepth path acc rest
+        | .ok more => selectedLoopOrig rec maxdepth path (acc ++ more) rest
+      else selectedLoopOrig rec maxdepth path acc rest
 
-/-- `selected_fields(field, fragments=, variables=, maxdepth=, _path=)`; the field is given by its
-    sub-selection; a path is the list of its `/`-separated components. -/
-def selectedFields : Nat → List Sel → List Frag → Vars → Nat → List String → Except Err (List (List String))
+/-- unchanged `selected_fields(field, fragments=, variables=, maxdepth=, _path=)` (pattern = None); the field
+    is given by its sub-selection; a path is the list of its `/`-separated components. -/
+def selectedFieldsOrig : Nat → List Sel → List Frag → Vars → Nat → List String → Except Err (List (List String))
   | 0, _, _, _, _, _ => .error .recursion
   | fuel + 1, sub, frags, vars, maxdepth, path =>
     match sub with
@@ -213,7 +219,41 @@ def selectedFields : Nat → List Sel → List Frag → Vars → Nat → List St
       match collectFieldsUntyped (fuel + 1) sub frags vars [] with
       | .error e => .error e
       | .ok (collected, _) =>
-        selectedLoop (fun s p => selectedFields fuel s frags vars maxdepth p) maxdepth path [] collected
+        selectedLoopOrig (fun s p => selectedFieldsOrig fuel s frags vars maxdepth p) maxdepth path [] collected
+
+/-- the loop of `_selected_paths` -/
+def pathsLoop (rec : List Sel → List String → Except Err (List (List String)))
+    (maxdepth : Nat) (pat : List String → Bool) (path : List String) :
+    List (List String) → Grouped → Except Err (List (List String))
+  | acc, [] => .ok acc
+  | acc, (_, fields) :: rest =>
+    match fields with
+    | [] => .error .index                    -- `fields[0]`
+    | child :: _ =>
+      let childPath := path ++ [child.name]
+      let acc := if pat childPath then acc ++ [childPath] else acc
+      if descend maxdepth path.length then
+        match rec (fields.flatMap (·.sub)) childPath with
+        | .error e => .error e
+        | .ok more => pathsLoop rec maxdepth pat path (acc ++ more) rest
+      else pathsLoop rec maxdepth pat path acc rest
+
+/-- `_selected_paths(selections, fragments, variables, maxdepth, pattern, path)` -/
+def selectedPaths : Nat → List Sel → List Frag → Vars → Nat → (List String → Bool) → List String →
+    Except Err (List (List String))
+  | 0, _, _, _, _, _, _ => .error .recursion
+  | fuel + 1, sels, frags, vars, maxdepth, pat, path =>
+    match collectFieldsUntyped (fuel + 1) sels frags vars [] with
+    | .error e => .error e
+    | .ok (collected, _) =>
+      pathsLoop (fun s p => selectedPaths fuel s frags vars maxdepth pat p) maxdepth pat path [] collected
+
+/-- `selected_fields(field, ...)` after the fix; `sub = []` is `field.selection_set is None` -/
+def selectedFields (fuel : Nat) (sub : List Sel) (frags : List Frag) (vars : Vars) (maxdepth : Nat)
+    (pat : List String → Bool) (path : List String) : Except Err (List (List String)) :=
+  match sub with
+  | [] => .ok []
+  | _ => selectedPaths fuel sub frags vars maxdepth pat path
 
 /-! ### `MaxDepthValidationRule.__call__` -/
 
@@ -233,7 +273,7 @@ def depthOrig (fuel : Nat) (op : Op) (frags : List Frag) (vars : Vars) : Except 
   match loopM (fun (acc : List (List String)) (s : Sel) =>
       match s with
       | .field _ _ _ sub =>
-        match selectedFields fuel sub frags vars 0 [] with
+        match selectedFieldsOrig fuel sub frags vars 0 [] with
         | .error e => .error e
         | .ok ps => .ok (acc ++ ps)
       | _ => .ok acc) [] op.sels with
